@@ -195,10 +195,54 @@ def validate(ctx: Ctx, budget_s: float):
         # parametric / measurement kinds must be rejected by gate-level converters
         if not per_kind_done:
             rejection_checks(ctx)
+            n_eval += compiled_entry_point(ctx)
         per_kind_done = True
     ctx.evaluations += n_eval
     ctx.extra["oracle_validation"] = {"evaluations": n_eval}
     ctx.search_budget_s = budget_s
+
+
+def compiled_entry_point(ctx: Ctx) -> int:
+    """quri_parts.qulacs.circuit.compile_circuit: the Qulacs program handed out by `.qulacs_circuit` (and what
+    convert_circuit returns for a compiled circuit) is the circuit's program at EVERY request, whatever the caller did
+    with a program it was handed earlier"""
+    from oracle import backends as B
+    from oracle import dense
+
+    try:
+        from quri_parts.qulacs.circuit import convert_circuit
+        from quri_parts.qulacs.circuit.compiled_circuit import compile_circuit
+        import qulacs
+    except ImportError as e:
+        ctx.notes.append(f"compiled qulacs circuits not importable ({e}); skipped")
+        return 0
+    rng = ctx.rng
+    k = 0
+    for _ in range(12 if ctx.quick() else 200):
+        n = rng.randint(1, 3)
+        circ = c01.random_real_circuit(rng, n, rng.randint(1, 6), [x for x in FULL if x not in ("UM1", "UM2")])
+        want = dense.circuit_unitary(n, circ.gates)
+        try:
+            cc = compile_circuit(circ)
+            progs = [("first .qulacs_circuit", cc.qulacs_circuit)]
+            # the caller keeps working with the program it was handed
+            progs[0][1].add_gate(qulacs.gate.X(rng.randrange(n)))
+            progs = [("first .qulacs_circuit", None), ("second .qulacs_circuit", cc.qulacs_circuit), ("convert_circuit(compiled)", convert_circuit(cc))]
+            first = cc.qulacs_circuit
+        except Exception as e:  # noqa: BLE001
+            ctx.count("qulacs.compiled", "raised:" + type(e).__name__)
+            continue
+        k += 1
+        for what, prog in progs:
+            if prog is None:
+                continue
+            d = dense.phase_dist(B.qulacs_unitary(prog, n), want)
+            ctx.count("qulacs.compiled", "ok" if d <= 1e-6 else "MISMATCH")
+            if d > 1e-6:
+                ctx.witness("qulacs.compiled.program", f"compile_circuit: {what} (after the caller appended a gate to a program handed out earlier) "
+                            f"differs from the circuit's action by {d:.3g}", c01.describe_circ(circ), {"gate_count": prog.get_gate_count()})
+                break
+    return k
 
 
 def first_bad_kind(backend, conv, uni, circ, tol):
